@@ -304,9 +304,14 @@ def progs(tier):
     late = list(CMTOPS) + list(PARS2)  # C06 programs added after EXTRA7 existed: they go to the very end (positional case ids)
     base = list(PROGRAMS[:_N_SHARED])
     base += [p for p in PROGS if p not in base and p not in PROGRAMS[_N_SHARED:] and p not in late]
-    return base + [p for p in PROGRAMS[_N_SHARED:_N_SHARED2] if p not in base] + EXTRA7 + late + list(PROGRAMS[_N_SHARED2:])
+    return base + [p for p in PROGRAMS[_N_SHARED:_N_SHARED2] if p not in base] + EXTRA7 + late + list(PROGRAMS[_N_SHARED2:]) + EXTRA7B
 
 
+EXTRA7B = [  # really appended last
+    # multi-line f-strings in an indented block whose nested f-string re-uses the quote sequence (3.12): the lines behind the nested one still belong to the outer string
+    'def f(x, y):\n    s = f"""a\n  {f"""{y}"""}\n  b\nc"""\n    t = f"p \\\n {f"{y}"} \\\n  q"\n    return s, t',
+    "class K:\n    def m(self):\n        u = f\'\'\'{self.a:{f\'\'\'>{w}\'\'\'}}\n    tail {\n  x}\nend\'\'\'\n        return u",
+]
 EXTRA7 = [  # appended last (positional case ids)
     # strings spanning several lines inside decorators / defaults / bases of definitions written on one line, in an indented block
     # operator chains with the operator at the start of the line / on a line of its own
